@@ -55,8 +55,9 @@ CHECKS["C11"] = dict(
     engine="tlc+replay")
 CHECKS["C10"] = dict(
     level="exploration", design="5/C10, 4.9",
-    text="Literals.tla enumerates 2 818 literal spellings with canonical values (digit strings in the literal's own radix, canonical float text, bits/width, "
-         "unit, sign); each is analysed and the literal in the semantic graph and the AST accessor values are compared.",
+    text="Literals.tla enumerates 3 300 literal spellings with canonical values (digit strings in the literal's own radix, canonical float text, bits/width, "
+         "unit, sign; boundary magnitudes up to 2^128-1 for plain, imaginary and timing integers, separators in every admissible place); each is analysed and the literal in the semantic graph and the AST accessor values are compared; "
+         "integers of 2^128 and more must be diagnosed and have no value.",
     note="nearest-double rounding delegated to str::parse::<f64> (trusted); no big integers in TLA+, values are digit strings",
     technique="TLA+ requirement spec as case generator (TLC), replay into the real analyser",
     engine="tlc+replay")
